@@ -51,20 +51,23 @@ def minV : List (Value N) → Option (Value N)
   | x :: xs => some (xs.foldl minStep x)
 
 /-- no value to compare: without parameters a parameter-count error, for `max([])` a custom error -/
-def emptyError : List (Value N) → NativeError
+def emptyError (msg : Str) : List (Value N) → NativeError
   | [] => .wrongParameterCount 1
-  | _ :: _ => .custom ['e','m','p','t','y',' ','a','r','r','a','y']
+  | _ :: _ => .custom msg
+/-- the texts of the two custom errors (`NativeError::from("…")` in common.rs) -/
+def noMaximum : Str := ['a','n',' ','e','m','p','t','y',' ','a','r','r','a','y',' ','h','a','s',' ','n','o',' ','m','a','x','i','m','u','m']
+def noMinimum : Str := ['a','n',' ','e','m','p','t','y',' ','a','r','r','a','y',' ','h','a','s',' ','n','o',' ','m','i','n','i','m','u','m']
 
 /-- built-in `max(...)` -/
 def max (params : List (Value N)) : Except NativeError (Value N) :=
   match maxV (smartVec params) with
   | some v => .ok v
-  | none => .error (emptyError params)
+  | none => .error (emptyError noMaximum params)
 /-- built-in `min(...)` -/
 def min (params : List (Value N)) : Except NativeError (Value N) :=
   match minV (smartVec params) with
   | some v => .ok v
-  | none => .error (emptyError params)
+  | none => .error (emptyError noMinimum params)
 
 /-- built-in `between(value, lower, upper)` -/
 def between : List (Value N) → Except NativeError (Value N)
